@@ -197,7 +197,9 @@ def job1(spec, fe):
         needs = bool(struct.unpack_from('<I', X, 1024 + 0x60)[0] & 4)
         if empty or not needs:
             miss = [blk for blk in final if X[blk * bs:(blk + 1) * bs] != final[blk]]
-            if miss:
+            # (a filesystem that had already lost the flag before the run: the state only counts once the replay has put something on the device)
+            begun = any(X[blk * bs:(blk + 1) * bs] != d[blk * bs:(blk + 1) * bs] for blk in final)
+            if miss and (begun or not spec.get('norecover')):
                 bad.append('I1 %s: crash image has %s but replayed block(s) %s are not on disk yet' % (label, 'an empty journal' if empty else 'needs_recovery clear', miss[:4]))
                 continue
         with open(p, 'wb') as f: f.write(X)
@@ -260,6 +262,12 @@ def main(tier, only=None):
                 specs.append({'base': base, 'fmt': fmt, 'txns': [{'items': a}, {'items': b}, c03.TAIL]})
     fes = only or list(FRONT)
     jobs = [(s, fe) for s in specs for fe in fes]
+    # the superblock has lost needs_recovery while the journal still holds committed transactions: e2fsck -y sets the flag again and runs the journal; from the
+    # moment the first replayed block is on the device the flag has to be there too
+    for base, fmt in (('ext3', '32-none'), ('ext4csum', '64-v3')):
+        for tx in ([D('A', 'B'), c03.TAIL], [big, c03.TAIL], [D('A'), {'items': [['R', ['A']], ['D', ['B', 'C']]]}, D('A', 'D'), c03.TAIL]):
+            for fe in ('e2fsck-fy', 'e2fsck-journal-only'):
+                if not only or fe in only: jobs.append(({'base': base, 'fmt': fmt, 'txns': tx, 'norecover': True}, fe))
     # external journal device (filesystem and journal are different files: the flush of the replayed blocks and the journal reset go to different descriptors)
     for fmt in ('32-v3', '64-none'):
         for sp in ([D('A', 'B'), {'items': [['R', ['A']], ['D', ['C', 'eB']]]}, c03.TAIL], [big, c03.TAIL], [D('A'), D('B', 'C'), D('A', 'D', 'E', 'F'), c03.TAIL]):
